@@ -4,7 +4,7 @@ From Coq Require Import ZArith NArith List Bool Arith Lia.
 From GV Require Import Base.Result Base.Host Gen.TokenTypes Gen.Defs Gen.Instr Model.Num Model.Value
   Model.Parser Model.BuilderWL Model.Machine Model.Compile Model.CompileExpr Model.CompileWL
   Spec.RefTable Spec.Pratt Spec.Chains Spec.Ast Spec.Printer Spec.Eval Spec.Fragment
-  Proofs.C02.Denote Proofs.C05.InlBase Proofs.Builder.PrattBridge Proofs.C01.Sizes
+  Proofs.C02.Denote Proofs.C05.InlBase Proofs.Builder.PrattBridge Proofs.C01.Sizes Proofs.C01.SimDone
   Proofs.C01.EndToEnd.PrintItems Proofs.C01.EndToEnd.PrintClimb Proofs.C01.EndToEnd.CompileBase
   Proofs.C01.EndToEnd.CompileSim Proofs.C01.EndToEnd.CompileMain.
 Import ListNotations.
@@ -31,74 +31,15 @@ Proof.
     rewrite (IHe1 _ _ R1), (IHe2 _ _ R2). reflexivity.
   - destruct t; try contradiction. destruct R as (_ & _ & R1 & R2). cbn [img Compile.size Ast.size].
     rewrite (IHe1 _ _ R1), (IHe2 _ _ R2). reflexivity.
-Qed.
-
-(* no inline instruction of the fragment is EndExpression *)
-Definition ne (mi : minstr) : Prop := fst mi <> I_EndExpression.
-
-Lemma no_end_inl sym_hash : forall e, efrag 3 e = true ->
-  forall ic cont lk pc j aob ajb ob jb jj, Forall ne (c_inl (compC sym_hash ic cont lk e pc j aob ajb ob jb jj)).
-Proof.
-  induction e; intros F ic cont lk pc j aob ajb ob jb jj; try discriminate F; cbn [efrag] in F;
-    repeat (apply andb_true_iff in F; let G := fresh "G" in destruct F as [F G]); cbn [compC].
-  - constructor; [cbn; discriminate|constructor].
-  - constructor; [cbn; discriminate|constructor].
-  - constructor; [cbn; discriminate|constructor].
-  - cbn [of_frag to_frag c_inl f_inl]. apply Forall_app. split; [apply IHe; exact F|].
-    constructor; [destruct o; cbn; discriminate|constructor].
-  - destruct (right_first o); cbn [of_frag to_frag c_inl f_inl]; repeat (apply Forall_app; split);
-      try (apply IHe1; assumption); try (apply IHe2; assumption);
-      (constructor; [destruct o; cbn; discriminate|constructor]).
-  - cbn [of_frag to_frag c_inl f_inl]. apply Forall_app. split; [apply IHe1; assumption|].
-    constructor; [cbn; discriminate|constructor].
-  - cbn [of_frag to_frag c_inl f_inl]. apply Forall_app. split; [apply IHe1; assumption|].
-    constructor; [cbn; discriminate|constructor].
-  - cbn [of_frag to_frag c_inl f_inl]. repeat (apply Forall_app; split);
-      try (apply IHe1; assumption); try (apply IHe2; assumption).
-    destruct (in_list lk k); [constructor|]. constructor; [cbn; discriminate|constructor].
-  - cbn [of_frag to_frag c_inl f_inl]. apply IHe; exact F.
-  - destruct ic; cbn [of_frag to_frag c_inl f_inl]; (apply Forall_app; split; [apply IHe1; assumption|]).
-    + constructor; [destruct neg; cbn; discriminate|constructor].
-    + constructor; [destruct neg; cbn; discriminate|]. constructor; [cbn; discriminate|constructor].
-  - destruct ic; cbn [of_frag to_frag c_inl f_inl]; (apply Forall_app; split; [apply IHe1; assumption|apply IHe2; assumption]).
+  - destruct t as [| | | |b ? ? t]; try contradiction. destruct b; try contradiction.
+    destruct R as (_ & R). cbn [img Compile.size Ast.size]. rewrite (IHe _ _ R). lia.
 Qed.
 
 Section Prog.
 Variable sym_hash : list N -> N.
 
-Lemma conv_fst toks ns : forall a x, convert sym_hash toks ns a = Ok x -> map fst x = map fst a.
-Proof.
-  induction a as [|[i o] a IH]; intros x Ha.
-  - injection Ha as <-. reflexivity.
-  - cbn [convert] in Ha. destruct (match o with ONone => Ok MNone | ONum n => Ok (MNum n)
-      | OData ni => do v <- operand_value sym_hash toks ns ni; Ok (MVal v) | OExpr j => Ok (MVal (VExpr (N.of_nat j))) end) as [m| | |];
-      try discriminate Ha. cbn [bind] in Ha.
-    destruct (convert sym_hash toks ns a) as [r| | |]; try discriminate Ha. cbn [bind] in Ha. injection Ha as <-.
-    cbn [map fst]. rewrite (IH r eq_refl). reflexivity.
-Qed.
-
-(* the closing EndExpression of the program is always emitted *)
-Lemma finish_program toks ns s code ms js mcode :
-  cci s = [] -> convert sym_hash toks ns code = Ok mcode -> Forall ne mcode ->
-  Compile.finish empty_init (sx s code ms js) default_end = sx s (code ++ [(I_EndExpression, ONone)]) (ms ++ [None]) js.
-Proof.
-  intros Hs Hc Hn. unfold Compile.finish, default_end. cbn [fold_left].
-  assert (Hlast : match last_instr empty_init (sx s code ms js) with
-                  | Some li => instruction_eqb (fst li) I_EndExpression = false
-                  | None => True end).
-  { unfold last_instr, sx. cbn [Compile.ci]. rewrite Hs. cbn [app].
-    destruct (rev code) as [|li r] eqn:Er; [exact I|].
-    assert (Hin : In li code) by (apply in_rev; rewrite Er; left; reflexivity).
-    assert (Hf : In (fst li) (map fst mcode)) by (rewrite (conv_fst _ _ _ _ Hc); apply in_map; exact Hin).
-    apply in_map_iff in Hf. destruct Hf as (mi & E & Hmi). rewrite Forall_forall in Hn. specialize (Hn mi Hmi).
-    unfold ne in Hn. rewrite E in Hn. destruct (fst li); try reflexivity. contradiction. }
-  destruct (last_instr empty_init (sx s code ms js)) as [li|].
-  - unfold instr_eqb. cbn [fst]. rewrite Hlast. cbn [andb]. rewrite emit_sx. reflexivity.
-  - rewrite emit_sx. reflexivity.
-Qed.
-
 Theorem compile_printed e Tn ns :
-  efrag 3 e = true -> paren_ok e = true -> rep e 0 Tn -> denotes ns None Tn ->
+  efrag LV e = true -> paren_ok e = true -> rep e 0 Tn -> denotes ns None Tn ->
   exists c0,
     Compile.compile empty_init lit_all (img Tn) = Ok (c0, 0) /\
     convert sym_hash (aprint e) ns (cci c0) = Ok (code (compile_prog sym_hash e)) /\
@@ -106,7 +47,7 @@ Theorem compile_printed e Tn ns :
 Proof.
   intros F P R D.
   assert (A : at_off (aprint e) 0 e) by (exists [], []; rewrite app_nil_r; split; reflexivity).
-  destruct (sim_all sym_hash (aprint e) ns 0 e F P Tn 0 R (ex_intro _ None D) A) as [Hs _].
+  destruct (sim_all sym_hash (aprint e) ns e F P Tn 0 R (ex_intro _ None D) A 0) as [Hs _].
   set (sz0 := sizes None e).
   set (s1 := mkC [] [] [0]).
   destruct (Hs 0 None false s1 (si sz0 + 1) (1 + sji sz0) (fun _ => eq_refl)) as (code & ms & ji0 & ps & I1 & C1 & L1 & B1).
@@ -114,8 +55,10 @@ Proof.
   set (Fp := comp sym_hash 0 None e 0 1 (si sz0 + 1) (1 + sji sz0)) in *.
   destruct (comp_sizes sym_hash e 0 None 0 1 (si sz0 + 1) (1 + sji sz0)) as (Si & So & Sj & Sjo). fold Fp sz0 in Si, So, Sj, Sjo.
   assert (Hn : Forall ne (f_inl Fp)).
-  { unfold Fp, CompileExpr.comp. cbn [to_frag f_inl]. apply no_end_inl. exact F. }
-  pose proof (finish_program (aprint e) ns s1 code ms ji0 (f_inl Fp) eq_refl C1 Hn) as Hfin.
+  { unfold Fp, CompileExpr.comp. cbn [to_frag f_inl]. eapply no_end_inl. exact F. }
+  assert (Hne : code <> []).
+  { intros ->. pose proof (conv_length _ _ _ _ _ C1) as Hl0. rewrite Si in Hl0. pose proof (si_pos None e). fold sz0 in H. cbn [length] in Hl0. lia. }
+  pose proof (finish_end sym_hash (aprint e) ns s1 code ms ji0 (f_inl Fp) C1 Hn Hne) as Hfin.
   set (s3 := sx s1 (code ++ [(I_EndExpression, ONone)]) (ms ++ [None]) ji0) in *.
   destruct (B1 (Compile.size (img Tn)) s3 [0] []) as (code' & ms' & Hr & Hc').
   - rewrite (size_img _ _ _ R). lia.
